@@ -49,6 +49,7 @@ var modelledPrefixes = []string{
 	"github.com/herumi/bls-eth-go-binary",
 	"github.com/ferranbt/fastssz",
 	"github.com/spf13/viper",
+	"github.com/jackc/puddle",
 	"google.golang.org/grpc/grpclog",
 	"google.golang.org/grpc/internal",
 	"reflect",
